@@ -56,3 +56,103 @@ package discovery
 //@   property C03
 //@   requires endpointURL != nil
 //@   ensures res == has(r.endpoints, urlKey(endpointURL))
+
+// ---- C20: model discovery over HTTP. Whatever the backend answers, discovery ends with a listing of named models or an
+// error; no nil dereference, no out-of-range index on the way.
+//@ func NewDiscoveryError
+//@   property C20
+//@   ensures res != nil && fresh(res)
+
+//@ func (c *HTTPModelDiscoveryClient) recordError
+//@   property C20
+//@   trusted
+//@ func (c *HTTPModelDiscoveryClient) updateMetrics
+//@   property C20
+//@   trusted
+
+//@ func (c *HTTPModelDiscoveryClient) discoverWithProfile
+//@   property C20
+//@   safety
+//@   requires c != nil && c.httpClient != nil && endpoint != nil && platformProfile != nil
+//@   modifies ghost remaining, ghost backing
+//@   ensures res1 == nil ==> namedModels(res0)
+//@   ensures res1 != nil ==> len(res0) == 0
+
+//@ func (c *HTTPModelDiscoveryClient) discoverWithAutoDetection
+//@   property C20
+//@   safety
+//@   requires c != nil && c.httpClient != nil && c.profileFactory != nil && endpoint != nil
+//@   modifies ghost remaining, ghost backing
+//@   loop 1 invariant true
+//@   ensures res1 == nil ==> namedModels(res0)
+//@   ensures res1 != nil ==> len(res0) == 0
+
+//@ func (c *HTTPModelDiscoveryClient) DiscoverModels
+//@   property C20
+//@   safety
+//@   requires c != nil && c.httpClient != nil && c.profileFactory != nil && endpoint != nil
+//@   modifies ghost remaining, ghost backing
+//@   ensures res1 == nil ==> namedModels(res0)
+//@   ensures res1 != nil ==> len(res0) == 0
+
+// ---- C20: one discovery round for one endpoint. A backend that cannot be read or parsed makes the round end with an
+// error BEFORE the registry is touched (regCalls unchanged): the previously known listing stays as it was.
+//@ interface ModelDiscoveryClient.DiscoverModels
+//@   modifies ghost remaining, ghost backing
+//@   ensures res1 == nil ==> namedModels(res0)
+
+//@ type ModelDiscoveryService
+//@   guarded_by mu: disabledEndpoints, endpointFilters
+//@   repinv self.disabledEndpoints != nil
+
+//@ func GetUserFriendlyMessage
+//@   property C20
+//@   safety
+//@ func IsRecoverable
+//@   property C20
+//@   safety
+
+//@ func (s *ModelDiscoveryService) disableEndpoint
+//@   property C20
+//@   safety
+//@   requires s != nil
+//@   modifies s.disabledEndpoints[all]
+//@ func (s *ModelDiscoveryService) incrementFailureCount
+//@   property C20
+//@   safety
+//@   requires s != nil
+//@   modifies s.disabledEndpoints[all]
+//@ func (s *ModelDiscoveryService) getFailureCount
+//@   property C20
+//@   safety
+//@   requires s != nil
+//@ func (s *ModelDiscoveryService) resetFailureCount
+//@   property C20
+//@   safety
+//@   requires s != nil
+//@   modifies s.disabledEndpoints[all]
+//@ func (s *ModelDiscoveryService) getEndpointFilterConfig
+//@   property C20
+//@   safety
+//@   requires s != nil && endpoint != nil
+
+//@ func (s *ModelDiscoveryService) handleDiscoveryError
+//@   property C20
+//@   safety
+//@   requires s != nil && endpoint != nil
+//@   modifies s.disabledEndpoints[all]
+
+//@ func (s *ModelDiscoveryService) applyModelFilter
+//@   property C20
+//@   safety
+//@   requires s != nil && s.modelFilter != nil
+//@   modifies *
+//@   ensures regCalls == old(regCalls)
+
+//@ func (s *ModelDiscoveryService) DiscoverEndpoint
+//@   property C20
+//@   safety
+//@   requires s != nil && s.client != nil && s.modelRegistry != nil && s.modelFilter != nil && endpoint != nil
+//@   modifies *
+//@   ensures res == nil ==> regCalls == old(regCalls) + 1
+//@   ensures regCalls == old(regCalls) || regCalls == old(regCalls) + 1
